@@ -1,9 +1,94 @@
 """C07, database part: FingerprintDatabase.fold = row-wise Fingerprint.fold (Model/Fprint.v fp_fold), for all kinds and
 chains b | a | bits, with the source re-read after the fold.  Theorems: Proofs/DbFold.v db_fold_rows, db_fold_values,
-db_fold_view, db_fold_frame.  Called by props/c07.py as part(ctx) -> found_input."""
+db_fold_view, db_fold_frame.  Called by props/c07.py as part(ctx) -> found_input.
+
+Streams (all compared with the database model step by step through dbgen.check_histories, the folded rows additionally with
+the fingerprint model fp_fold):
+  * sources built by new + add_fingerprints or from_array (unsorted CSR columns, explicit zeros, dense), of lengths with and
+    without an odd factor (2, 8, 12, 16, 24, 96, 1024, 3072, 2^32), 1-4 rows and sometimes 12-20 rows;
+  * sources that are themselves DERIVED databases (as_type copy, concat with itself, reload through .fpz / .fps, pickle,
+    deepcopy, copy, subset): their matrices have other index dtypes / buffer ownership than a freshly filled database;
+  * the valid chain of lengths, optionally changing the fingerprint type, chained (fold of a fold) and one-step;
+  * REJECTED lengths on the source and on a folded database: larger than the source, zero, negative, quotient odd,
+    quotient not an integer whose FLOOR is a power of two (bits/2+1, 3*bits/4, ...);
+  * after the folds: fingerprints added to / a column set on the folded database and on the source - every live database
+    is re-observed after every step (a fold result that shares a list or buffer with its source shows here);
+  * implementation-only: the length handed over as a numpy integer (valid and rejected), the documented `name=` option and its default (the source's name), keyword / positional ways of
+    writing the call, db.fold(b)[j] against db[j].fold(b), an empty database (no matrix) is rejected and stays usable."""
 import core
 import dbgen
 import fpgen
+
+BITS = [16, 16, 1024, 1024, 2 ** 32, 2 ** 32, 2 ** 32, 8, 2, 12, 24, 96, 3 * 2 ** 10]
+
+
+def valid_lengths(b):
+    out = [b]
+    while out[-1] % 2 == 0:
+        out.append(out[-1] // 2)
+    return out
+
+
+def bad_lengths(rng, b):
+    """Lengths fold must refuse, in particular those whose floored ratio is a power of two although the exact one is not."""
+    c = [2 * b, b + 1, 0, -b, -(b // 2 or 1), b * 4]
+    if b > 2:
+        c += [b // 2 + 1, b - 1]                         # floor(b / x) = 1
+    if b % 4 == 0 and b >= 8:
+        c += [3 * (b // 4), 3 * (b // 8) or 3]           # floor = 1, 2
+    if b % 3 == 0:
+        c += [b // 3]                                    # exact ratio 3
+    if b >= 16:
+        c += [b // 4 + 1, 5, 7]
+    c = [x for x in c if x not in valid_lengths(b)]
+    return rng.sample(c, min(len(c), rng.choice([1, 2, 2, 3])))
+
+
+def make_source(ctx, h, dist):
+    """A non-empty database in h; returns its handle or None."""
+    rng = h.rng
+    if rng.random() < 0.3:
+        h.rand_from_array()
+        dist['source_from_array'] += 1
+    else:
+        k0 = rng.choice(dbgen.KINDS)
+        h.op_new(k0, h.level)
+        many = rng.random() < 0.08
+        if k0 == 'KCount' and rng.random() < 0.6 and not many:
+            # counts up to 65535 (COUNT_FP_DTYPE is uint16): folded sums both within and beyond the limit; beyond it the
+            # database fold wraps modulo 2^16 (model: ksum KCount) while Fingerprint.fold keeps the exact Python integer
+            fps = [dbgen.make_fp(rng, 'KCount', h.bits, h.level, h.rand_name(), dbgen.rand_props(rng, h.schema), big=True)
+                   for _ in range(rng.choice([1, 2, 3]))]
+            h.op_add(h.live[-1], fps)
+        else:
+            h.op_add(h.live[-1], h.batch(h.live[-1], rng.choice([12, 20]) if many else rng.choice([1, 2, 3, 4]), own=rng.random() < 0.7))
+            dist['many_rows'] += many
+    if not h.live:
+        return None
+    src = h.live[-1]
+    if h.pool[src].fp_num == 0:
+        return None
+    if rng.random() < 0.4:
+        # a derived database as the source of the fold
+        d = h.pool[src]
+        way = rng.choice(['as_type', 'concat', 'reload_fpz', 'reload_fps', 'pickle', 'deepcopy', 'copy', 'subset'])
+        if way == 'as_type':
+            r = h.op_as_type(src, h.castable_kind(dbgen.kind_of_type(d.fp_type)), True)
+        elif way == 'concat':
+            r = h.op_concat([src, src], plus=rng.random() < 0.5)
+        elif way.startswith('reload'):
+            r = h.op_reload(src, way == 'reload_fpz')
+        elif way in ('pickle', 'deepcopy'):
+            r = h.op_pickle(src, deep=(way == 'deepcopy'))
+        elif way == 'copy':
+            r = h.op_copy(src)
+        else:
+            present = list(dict.keys(d.fp_names_to_indices))
+            r = h.op_subset(src, [rng.choice(present) for _ in range(rng.choice([1, 2, 3]))])
+        if r[0] == 'ok' and h.pool[len(h.pool) - 1].fp_num > 0:
+            src = len(h.pool) - 1
+            dist['source_derived'][way] = dist['source_derived'].get(way, 0) + 1
+    return src
 
 
 def part(ctx):
@@ -11,39 +96,40 @@ def part(ctx):
     found = False
     hists, cases, payloads = {}, [], {}
     over = {'beyond_uint16': 0, 'large_within_uint16': 0}
-    for i in range(ctx.n(40, 500)):
-        h = dbgen.History(rng, bits=rng.choice([16, 1024, 2 ** 32]))
-        if rng.random() < 0.3:
-            h.rand_from_array()
-        else:
-            k0 = rng.choice(dbgen.KINDS)
-            h.op_new(k0, h.level)
-            if k0 == 'KCount' and rng.random() < 0.6:
-                # counts up to 65535 (COUNT_FP_DTYPE is uint16): folded sums both within and beyond the limit; beyond it the
-                # database fold wraps modulo 2^16 (model: ksum KCount) while Fingerprint.fold keeps the exact Python integer
-                fps = [dbgen.make_fp(rng, 'KCount', h.bits, h.level, h.rand_name(), dbgen.rand_props(rng, h.schema), big=True)
-                       for _ in range(rng.choice([1, 2, 3]))]
-                h.op_add(h.live[-1], fps)
-            else:
-                h.op_add(h.live[-1], h.batch(h.live[-1], rng.choice([1, 2, 3, 4]), own=rng.random() < 0.7))
-        if not h.live:
+    dist = {'histories': 0, 'source_from_array': 0, 'source_derived': {}, 'many_rows': 0, 'valid_folds': 0, 'rejected_folds': 0,
+            'type_changing_folds': 0, 'post_fold_mutations': 0, 'bits': {}, 'row_vs_fingerprint_fold': 0, 'name_option_checks': 0, 'empty_database_checks': 0}
+    dbgen.set_workdir(ctx.workdir)
+    for i in range(ctx.n(48, 560)):
+        h = dbgen.History(rng, bits=rng.choice(BITS))
+        h.MAX_LIVE = 9                                      # source, three chained and three one-step folds stay observed
+        src = make_source(ctx, h, dist)
+        if src is None:
             continue
-        src = h.live[-1]
         d = h.pool[src]
-        if d.fp_num == 0:
-            continue
         before = (dbgen.db_lit(dbgen.obs_db(d)), str(dbgen.obs_items(d)))
         b = d.bits
-        chain = sorted({b >> s for s in rng.sample(range(0, b.bit_length()), min(3, b.bit_length()))}, reverse=True)
+        dist['histories'] += 1
+        dist['bits'][str(b)] = dist['bits'].get(str(b), 0) + 1
+        lens = valid_lengths(b)
+        # a sum beyond 65535 is modelled for count -> count folds (wraps modulo 2^16); casting an out-of-range float64 to uint16
+        # (count -> float -> count with large values) is undefined in C / numpy: no type changes for sources holding large values
+        large = any(v > 20000 for r in dbgen.obs_db(d)['rows'] for _, v in r)
+        chain = sorted(set(rng.sample(lens, min(3, len(lens)))), reverse=True)
         cur = src
         for nb in chain:
-            r = h.op_fold(cur, nb, rng.choice([None, None] + list(dbgen.KINDS)) if nb != chain[-1] or rng.random() < 0.5 else None)
+            kind = rng.choice([None, None] + list(dbgen.KINDS)) if nb != chain[-1] or rng.random() < 0.5 else None
+            if large:
+                kind = None
+            r = h.op_fold(cur, nb, kind)
+            dist['type_changing_folds'] += kind is not None
             if r[0] != 'ok':
                 break
+            dist['valid_folds'] += 1
+            new = len(h.pool) - 1
             direct = h.op_fold(src, nb)                                  # one-step fold of the source to the same length
-            new = len(h.pool) - 2
             # row-wise: database fold == fingerprint fold of every source row (same kind route only)
             if direct[0] == 'ok':
+                dist['valid_folds'] += 1
                 dd = h.pool[len(h.pool) - 1]
                 for j in range(d.fp_num):
                     s_o, f_o = fpgen.obs(d[j]), fpgen.obs(dd[j])
@@ -58,16 +144,238 @@ def part(ctx):
                         if any(v > 20000 for v in sums.values()):
                             over['large_within_uint16'] += 1
                     key = 'c07db/%d/%d/%d' % (i, nb, j)
-                    cases.append((key, 'result_eqb (fp_obs_close (Qmake 1 1000000000)) (fp_fold %s %s 0) (Ok %s)' % (fpgen.lit(s_o), core.zlit(nb), fpgen.lit(f_o))))
+                    from props import c07 as base
+                    cases.append((key, 'result_eqb (fp_obs_close %s) (fp_fold %s %s 0) (Ok %s)' % (base.tol_of(s_o)[0], fpgen.lit(s_o), core.zlit(nb), fpgen.lit(f_o))))
                     payloads[key] = {'source_row': fpgen.obs_json(s_o), 'bits': nb, 'db_fold_row': fpgen.obs_json(f_o)}
                     ctx.count(('c07db', str(s_o), nb), len(s_o['idx']) > 1 and nb < b)
+                    # the two implementation routes against each other: fold the fingerprint taken out of the database
+                    if j < 3:
+                        rf = fpgen.attempt(lambda: fpgen.obs(d[j].fold(nb)))
+                        dist['row_vs_fingerprint_fold'] += 1
+                        if rf[0] != 'ok' or rf[1] != f_o:
+                            found = True
+                            ctx.fail('db.fold(%d)[%d] differs from db[%d].fold(%d)' % (nb, j, j, nb),
+                                     {'ops': dbgen.descs_of(h.steps), 'row': j, 'db_fold_row': fpgen.obs_json(f_o),
+                                      'fingerprint_fold': fpgen.obs_json(rf[1]) if rf[0] == 'ok' else rf[1]}, finding_key='dbfold:row-vs-fingerprint-fold')
             cur = new
+        # rejected lengths, on the source and on the last folded database
+        for target in (src, cur):
+            if target == cur and cur == src:
+                continue
+            tb = h.pool[target].bits
+            for bad in bad_lengths(rng, tb):
+                r = h.op_fold(target, bad, rng.choice([None, None, 'KCount']) if not large else None)
+                dist['rejected_folds'] += 1
+                ctx.count(('c07db-rej', b, tb, bad), True)
+                if r[0] == 'ok':
+                    found = True
+                    ctx.fail('database of %d bits accepted fold(%d)' % (tb, bad), {'ops': dbgen.descs_of(h.steps)}, finding_key='dbfold:accepts-bad-length')
         after = (dbgen.db_lit(dbgen.obs_db(d)), str(dbgen.obs_items(d)))
         if after != before:
             found = True
             ctx.fail('source database changed by fold', {'ops': dbgen.descs_of(h.steps)}, finding_key='dbfold-mutates-source')
+        # writes after the folds: on a folded database and on the source; all live databases are re-observed by every step
+        if cur != src and rng.random() < 0.7:
+            for target in rng.sample([cur, src], 2):
+                if target not in h.live:
+                    continue
+                t = h.pool[target]
+                if rng.random() < 0.7:
+                    h.op_add(target, h.batch(target, rng.choice([1, 2]), own=True))
+                else:
+                    h.op_set_prop(target, 'q', [rng.choice([0, 1, 7]) for _ in range(t.fp_num)], ty='int')
+                dist['post_fold_mutations'] += 1
         hists['c07db-%d' % i] = h
+    found = direct_checks(ctx, dist) or found
     nbad = dbgen.check_histories(ctx, hists, 'C07 database fold histories', finding_key_of=lambda h, st: 'dbfold:model-vs-impl')
     nbad += core.compare_cases(ctx, cases, dbgen.IMPORTS, 'C07 database fold row = fingerprint fold', payloads, shard=200)
-    ctx.coverage.setdefault('input_distribution', {})['db_fold_count_sums'] = over if isinstance(ctx.coverage.get('input_distribution'), dict) else over
+    cov = ctx.coverage.setdefault('input_distribution', {})
+    cov['db_fold_count_sums'] = over
+    cov['db_fold'] = dist
+    ctx.coverage['rule'] = (ctx.coverage.get('rule', '') + ' [database part] histories: source (new+add / from_array / derived by as_type, concat, reload, pickle, copy, subset) of '
+                            'lengths %s, up to three chained and one-step folds over the valid chain (type changes), rejected lengths incl. floored '
+                            'power-of-two ratios on source and folded database, writes on folded database and source afterwards; every live database compared with the '
+                            'model after every step; folded rows against fp_fold; name= option, call forms incl. numpy lengths, db[j].fold, empty database on the implementation.' % sorted(set(BITS)))
     return found or nbad > 0
+
+
+def direct_checks(ctx, dist):
+    """Documented options of FingerprintDatabase.fold the database model does not carry (the database's own name) and ways of
+    writing the call; checked on the implementation."""
+    import numpy as np
+    from e3fp.fingerprint.db import FingerprintDatabase
+    rng = ctx.rng
+    found = False
+    C = fpgen.classes()
+    for n in range(ctx.n(30, 300)):
+        kind = rng.choice(dbgen.KINDS)
+        bits = rng.choice([16, 1024, 2 ** 32, 24])
+        level = rng.choice([-1, 5, None])
+        own = rng.choice([None, 'src_db', 'x y', ''])
+        seed = rng.randrange(2 ** 30)
+        nb = rng.choice(valid_lengths(bits))
+        given = rng.choice(['folded', 'other name', ''])
+        rp = {'type': 'db_direct', 'kind': kind, 'bits': bits, 'level': level, 'db_name': own, 'seed': seed, 'nb': nb, 'name_arg': given}
+        found = db_direct_case(ctx, rp) or found
+        dist['name_option_checks'] += 1
+    for n in range(ctx.n(25, 250)):
+        rp = {'type': 'db_signed', 'bits': rng.choice([16, 64, 1024, 2 ** 32, 24]), 'level': rng.choice([-1, 5, None]), 'seed': rng.randrange(2 ** 30)}
+        found = db_signed_case(ctx, rp) or found
+        dist['signed_float_database_checks'] = dist.get('signed_float_database_checks', 0) + 1
+    for n in range(ctx.n(6, 40)):
+        kind = rng.choice(dbgen.KINDS)
+        e = FingerprintDatabase(fp_type=C[kind], level=rng.choice([-1, 5]))
+        r = fpgen.attempt(lambda: e.fold(rng.choice([8, 1024])))
+        dist['empty_database_checks'] += 1
+        ctx.count(('c07db-empty', kind), True)
+        ok_after = fpgen.attempt(lambda: e.add_fingerprints([C[kind].from_indices([1, 9], bits=16, level=e.level, name='a')]) or e.fold(8).bits)
+        if r[0] != 'err' or ok_after != ('ok', 8):
+            found = True
+            ctx.fail('fold of a database without fingerprints: expected a rejection that leaves the database usable',
+                     {'kind': kind, 'fold_result': str(r), 'after_add_fold8_bits': str(ok_after)}, finding_key='dbfold:empty-database')
+    return found
+
+
+def db_direct_case(ctx, rp):
+    import random
+    import numpy as np
+    from e3fp.fingerprint.db import FingerprintDatabase
+    C = fpgen.classes()
+    rng = random.Random(rp['seed'])
+    kind, bits, level, nb = rp['kind'], rp['bits'], rp['level'], rp['nb']
+    T = C[kind]
+    db = FingerprintDatabase(fp_type=T, level=level, name=rp['db_name'])
+    db.add_fingerprints([dbgen.make_fp(rng, kind, bits, level, rng.choice(['a', 'b', None]), [])['fp'] for _ in range(rng.choice([1, 2, 3]))])
+    before = (dbgen.obs_db(db), db.name)
+    other = C[rng.choice([k for k in dbgen.KINDS])]
+    forms = {'positional': lambda: db.fold(nb), 'bits=': lambda: db.fold(bits=nb), 'name=': lambda: db.fold(nb, name=rp['name_arg']),
+             'all keywords': lambda: db.fold(name=rp['name_arg'], fp_type=T, bits=nb), 'all positional': lambda: db.fold(nb, T, rp['name_arg']),
+             'fp_type=None': lambda: db.fold(nb, fp_type=None, name=None),
+             'numpy int64': lambda: db.fold(np.int64(nb)), 'numpy int32 keyword': lambda: db.fold(bits=np.int32(nb) if nb < 2 ** 31 else np.int64(nb)),
+             'other type positional': lambda: db.fold(nb, other), 'other type keyword': lambda: db.fold(bits=nb, fp_type=other)}
+    res = {k: fpgen.attempt(f) for k, f in forms.items()}
+    ctx.count(('c07db-direct', str(rp)), True)
+    bad = []
+    if any(r[0] != 'ok' for r in res.values()):
+        bad.append('a valid call raised: %s' % {k: r[1] for k, r in res.items() if r[0] != 'ok'})
+    else:
+        ref = dbgen.obs_db(res['positional'][1])
+        for k in ('bits=', 'name=', 'all keywords', 'all positional', 'fp_type=None', 'numpy int64', 'numpy int32 keyword'):
+            if dbgen.obs_db(res[k][1]) != ref or int(res[k][1].bits) != nb:
+                bad.append('%s gives other contents than the positional call' % k)
+        if dbgen.obs_db(res['other type positional'][1]) != dbgen.obs_db(res['other type keyword'][1]):
+            bad.append('fp_type positional and keyword differ')
+        for k in ('positional', 'bits=', 'fp_type=None', 'other type positional', 'other type keyword', 'numpy int64', 'numpy int32 keyword'):
+            if res[k][1].name != rp['db_name']:
+                bad.append('%s: folded database is named %r, the source %r (default: the name of the source)' % (k, res[k][1].name, rp['db_name']))
+        for k in ('name=', 'all keywords', 'all positional'):
+            if res[k][1].name != rp['name_arg']:
+                bad.append('%s: folded database is named %r, requested %r' % (k, res[k][1].name, rp['name_arg']))
+        if any(r[1] is db for r in res.values()) or len(set(id(r[1]) for r in res.values())) != len(res):
+            bad.append('fold returned the source database or the same object twice')
+        if res['positional'][1].bits != nb or res['positional'][1].fp_type is not T or res['other type keyword'][1].fp_type is not other:
+            bad.append('length or fingerprint type of the folded database')
+    # rejected lengths handed over as numpy integers (0 excluded: numpy scalars divide by zero without raising, the call is
+    # still refused but with the other error class)
+    for x in bad_lengths(rng, bits):
+        if x == 0:
+            continue
+        r1, r2 = fpgen.attempt(lambda: db.fold(x)), fpgen.attempt(lambda: db.fold(np.int64(x)))
+        if r1[0] != 'err' or r2 != r1:
+            bad.append('rejected length %d: Python int gives %s, numpy int64 gives %s' % (x, r1[1] if r1[0] == 'err' else 'a database', r2[1] if r2[0] == 'err' else 'a database'))
+    if (dbgen.obs_db(db), db.name) != before:
+        bad.append('the source database (contents or name) changed')
+    for msg in bad:
+        ctx.fail('FingerprintDatabase.fold options: ' + msg, {'replay': rp, 'source': dbgen.obs_json(before[0]), 'source_name': before[1]},
+                 finding_key='dbfold:options')
+    return bool(bad)
+
+
+def db_signed_case(ctx, rp):
+    """Float databases with zero and negative values (means / differences of fingerprints stored in a database).  The database
+    model's domain is non-negative values, so this is checked on the implementation: every folded row holds, position by
+    position, the sum over the fibre (a position whose values cancel may or may not stay stored: compared by value), the row
+    total is conserved, two steps equal one step, the source is unchanged."""
+    import random
+    from fractions import Fraction
+    from e3fp.fingerprint.db import FingerprintDatabase
+    F = fpgen.classes()['KFloat']
+    rng = random.Random(rp['seed'])
+    bits, level = rp['bits'], rp['level']
+    lens = valid_lengths(bits)
+    nb = rng.choice(lens)
+    mid = rng.choice([x for x in lens if x >= nb])
+    rows = []
+    for _ in range(rng.choice([1, 2, 3])):
+        idx = fpgen.rand_indices(rng, bits, 5)
+        for i in list(idx):
+            if rng.random() < 0.7:
+                idx.append((i + nb * rng.randrange(1, 3)) % bits)
+        idx = sorted(set(idx))
+        vals = {}
+        for i in idx:
+            partner = [j for j in vals if j % nb == i % nb]
+            vals[i] = -vals[partner[0]] if partner and rng.random() < 0.4 else rng.choice([Fraction(1, 2), Fraction(-1, 2), Fraction(3), Fraction(-3), Fraction(-7, 4), Fraction(250), Fraction(0)])
+        rows.append(vals)
+    db = FingerprintDatabase(fp_type=F, level=level)
+    db.add_fingerprints([F.from_counts({int(i): float(v) for i, v in r.items()}, bits=bits, level=level, name='r%d' % k) for k, r in enumerate(rows)])
+    before = dbgen.obs_db(db)
+    one, two = fpgen.attempt(lambda: db.fold(nb)), fpgen.attempt(lambda: db.fold(mid).fold(nb))
+    ctx.count(('c07db-signed', str(rp)), True)
+    bad = []
+    if one[0] != 'ok' or two[0] != 'ok':
+        bad.append('fold raised: %s / %s' % (one[1] if one[0] != 'ok' else 'ok', two[1] if two[0] != 'ok' else 'ok'))
+    else:
+        for k, r in enumerate(rows):
+            want = {}
+            for i, v in r.items():
+                want[i % nb] = want.get(i % nb, 0) + v
+            want = {j: v for j, v in want.items() if v != 0}
+            for what, d2 in (('one step', one[1]), ('two steps via %d' % mid, two[1])):
+                got = {j: v for j, v in dbgen.obs_db(d2)['rows'][k] if v != 0}
+                if got != want:
+                    bad.append('row %d, %s: folded values %s, sums over the fibres %s' % (k, what, sorted(got.items()), sorted(want.items())))
+                elif sum(got.values()) != sum(r.values()):
+                    bad.append('row %d, %s: total not conserved' % (k, what))
+            rf = fpgen.attempt(lambda: {j: v for j, v in fpgen.obs(db[k].fold(nb))['cnt'] if v != 0})
+            if rf != ('ok', want):
+                bad.append('row %d: db[%d].fold(%d) gives %s' % (k, k, nb, rf[1]))
+    if dbgen.obs_db(db) != before:
+        bad.append('the source database changed')
+    for msg in bad[:3]:
+        ctx.fail('fold of a float database with zero / negative values: ' + msg, {'replay': rp, 'rows': [[[i, str(v)] for i, v in sorted(r.items())] for r in rows], 'fold_bits': nb},
+                 finding_key='dbfold:signed-float-values')
+    return bool(bad)
+
+
+def replay_case(ctx, rp):
+    if rp.get('type') == 'db_signed':
+        db_signed_case(ctx, rp)
+        return True
+    if rp.get('type') != 'db_direct':
+        return False
+    db_direct_case(ctx, rp)
+    return True
+
+
+def replay_history(ctx, case):
+    """Replay of a history violation: the recorded operations on a fresh pool; every step compared with the model, and for
+    every fold the source database observed before and after the call."""
+    import random
+    descs = [dict(st['op']) for st in case.get('minimal_history', [])] or [dict(d) for d in case.get('ops', [])]
+    for d in descs:
+        d.pop('_ok', None)
+    dbgen.set_workdir(ctx.workdir)
+    h = dbgen.History(random.Random(0), schema=[], bits=8, level=-1)
+    h.MAX_LIVE = 10 ** 6
+    for d in descs:
+        src = h.pool[d['h']] if d['op'] == 'fold' and d['h'] < len(h.pool) else None
+        before = None if src is None else (dbgen.db_lit(dbgen.obs_db(src)), str(fpgen.attempt(lambda: dbgen.obs_items(src))))
+        r = dbgen.exec_desc(h, d)
+        if src is not None:
+            if (dbgen.db_lit(dbgen.obs_db(src)), str(fpgen.attempt(lambda: dbgen.obs_items(src)))) != before:
+                ctx.fail('source database changed by fold', {'ops': descs}, finding_key='dbfold-mutates-source')
+            if r[0] == 'ok' and d['bits'] not in valid_lengths(src.bits):
+                ctx.fail('database of %d bits accepted fold(%d)' % (src.bits, d['bits']), {'ops': descs}, finding_key='dbfold:accepts-bad-length')
+    dbgen.check_histories(ctx, {'replay': h}, 'C07 database fold histories (replay)', shrink_budget=0)
+    return True
